@@ -2888,6 +2888,12 @@ func (r *Resolver) lookupNSAddrV4(ctx context.Context, qname string, cd bool) (a
 	if err != nil {
 		return addrs, fmt.Errorf("nameserver ipv4 address lookup failed for %s: %w", qname, err)
 	}
+	// A sub-lookup refused for this request tree's own reasons (load shed,
+	// attempt limit, deadline) comes back as a marked SERVFAIL, not as err.
+	// Keep that provenance: it says nothing about the delegation's servers.
+	if localErr := middleware.RequestLocalFailureForResponse(ctx, nsres); localErr != nil {
+		return addrs, fmt.Errorf("nameserver ipv4 address lookup failed for %s: %w", qname, localErr)
+	}
 
 	if addrs, ok := searchAddrs(nsres); ok {
 		return addrs, nil
@@ -2918,6 +2924,12 @@ func (r *Resolver) lookupNSAddrV6(ctx context.Context, qname string, cd bool) (a
 	nsres, err := r.internalExchange(ctx, nsReq)
 	if err != nil {
 		return addrs, fmt.Errorf("nameserver ipv6 address lookup failed for %s: %w", qname, err)
+	}
+	// A sub-lookup refused for this request tree's own reasons (load shed,
+	// attempt limit, deadline) comes back as a marked SERVFAIL, not as err.
+	// Keep that provenance: it says nothing about the delegation's servers.
+	if localErr := middleware.RequestLocalFailureForResponse(ctx, nsres); localErr != nil {
+		return addrs, fmt.Errorf("nameserver ipv6 address lookup failed for %s: %w", qname, localErr)
 	}
 
 	if addrs, ok := searchAddrs(nsres); ok {
@@ -2987,10 +2999,14 @@ func (r *Resolver) lookupV4Nss(ctx context.Context, q dns.Question, authservers 
 				errors.Is(err, context.DeadlineExceeded) {
 				return err
 			}
-			if errors.Is(err, middleware.ErrResolutionAttemptLimit) {
+			if errors.Is(err, middleware.ErrResolutionAttemptLimit) ||
+				errors.Is(err, middleware.ErrLocalLoadShed) {
 				// RFC 9520 keys by question tuple: exhausting one NS
 				// hostname must not prevent trying the delegation's other
-				// hostnames.
+				// hostnames. Likewise a hostname whose lookup was shed by
+				// our own in-flight ceilings: if no other yields a server,
+				// the refusal is returned as such instead of being recorded
+				// as an unreachable zone.
 				lastAttemptLimit = err
 				zlog.Debug("Lookup NS ipv4 address reached attempt limit", "query", dnsutil.FormatQuestion(q), "ns", name)
 				continue
